@@ -438,7 +438,7 @@ def run(tier, seed):
                        "statement: the reference abstains there",
                        "where a value that gates an error is a machine float the reference accepts either outcome",
                        "temperature-scale suffixes are C10's business"]
-    n = 60000 if tier == "quick" else 1500000
+    n = 60000 if tier == "quick" else 6000000
     per = nproc()
     for res in shard_map(work, [None] * per, (seed, n // per + 1)):
         run.merge(res)
